@@ -191,6 +191,11 @@ func legC19(e *Engine) []Violation {
 				return
 			}
 		}
+		e.mu.Lock()
+		if len(e.rep.Samples) < 3 {
+			e.rep.Samples = append(e.rep.Samples, fmt.Sprintf("case %s: segment %d file-backed (%d bytes); Load issues %d storage reads, the script of %d calls %d more; for every k in 0..%d storage fails from its k-th read on: every call returned, none panicked or hung", c.ID, sg, len(img), loadReads, len(qs), total-loadReads, total))
+		}
+		e.mu.Unlock()
 		e.noteCase(c, true)
 	})
 	e.rep.Evaluations = int(points)
@@ -346,6 +351,11 @@ func legC12(e *Engine) []Violation {
 				}
 			}
 			atomic.AddInt64(&distinct, int64(total))
+			e.mu.Lock()
+			if len(e.rep.Samples) < 3 {
+				e.rep.Samples = append(e.rep.Samples, fmt.Sprintf("case %s, workload %s: %d bytes on a healthy writer; writer failing after k bytes for every k in 0..%d -> error each time; close channel closed after k bytes for every k in 0..%d -> ErrClosed or the identical complete file", c.ID, wl.name, total, total-1, total))
+			}
+			e.mu.Unlock()
 		}
 		e.noteCase(c, true)
 	})
@@ -437,6 +447,9 @@ func legC14(e *Engine) []Violation {
 					Extra: "# history: " + strings.Join(histDesc, "; ") + "\n"})
 				break
 			}
+		}
+		if len(e.rep.Samples) < 3 {
+			e.rep.Samples = append(e.rep.Samples, fmt.Sprintf("target batch of %d documents (mode %d) built cold (%d bytes), then after history [%s] four more times: identical bytes each time", len(target), mode, len(cold), strings.Join(histDesc, "; ")))
 		}
 		e.noteCase(cb.c, true)
 	}
